@@ -151,27 +151,31 @@ Theorem cast_guarded_substring_length : forall l maxlen, (0 <= maxlen < 2 ^ 64 -
 Proof. exact cast_substring_length_l. Qed.
 Print Assumptions cast_guarded_substring_length.
 
-(* FULL statements for the K9 sites (kept visible) are FALSE of the code as it is *)
-Definition cast_predicate_statement : Prop := forall x, predicate_casts x = true -> in_uint64 x.
-Theorem cast_predicate_refuted : ~ cast_predicate_statement.
-Proof. intros H. specialize (H 99999999999999999999999%Z eq_refl). unfold in_uint64 in H. vm_compute in H. destruct H as [_ H]. discriminate H. Qed.
-Print Assumptions cast_predicate_refuted.
-Theorem cast_predicate_partial : forall x, predicate_casts x = true -> (x < 2 ^ 64)%Z -> in_uint64 x.
-Proof. exact cast_predicate_partial_l. Qed.
-Print Assumptions cast_predicate_partial.
+(* the former K9 sites and the two EXSLT sites: with the range guards now in the code (anchored by
+   the translator) the casts are in range for every value that reaches them *)
+Theorem cast_guarded_predicate : forall x len, (0 <= len < 2 ^ 64)%Z -> predicate_casts x len = true -> in_uint64 x.
+Proof. exact cast_predicate_l. Qed.
+Print Assumptions cast_guarded_predicate.
 
-Definition cast_count_statement : Prop := forall x, count_casts x = true -> in_uint64 x.
-Theorem cast_count_refuted : ~ cast_count_statement.
-Proof. intros H. specialize (H (10 ^ 30)%Z eq_refl). unfold in_uint64 in H. vm_compute in H. destruct H as [_ H]. discriminate H. Qed.
-Print Assumptions cast_count_refuted.
-Theorem cast_count_partial : forall x, count_casts x = true -> (x < 2 ^ 64)%Z -> in_uint64 x.
-Proof. exact cast_count_partial_l. Qed.
-Print Assumptions cast_count_partial.
+Theorem cast_guarded_count : forall x, count_casts x = true -> in_uint64 x.
+Proof. exact cast_count_l. Qed.
+Print Assumptions cast_guarded_count.
 
-Definition cast_int64_statement : Prop := forall x, int64_casts x = true -> in_int64 x.
-Theorem cast_int64_refuted : ~ cast_int64_statement.
-Proof. intros H. specialize (H (2 ^ 63)%Z eq_refl). unfold in_int64 in H. vm_compute in H. destruct H as [_ H]. discriminate H. Qed.
-Print Assumptions cast_int64_refuted.
-Theorem cast_int64_partial : forall x, int64_casts x = true -> (- 2 ^ 63 <= x < 2 ^ 63)%Z -> in_int64 x.
-Proof. exact cast_int64_partial_l. Qed.
-Print Assumptions cast_int64_partial.
+Theorem cast_guarded_int64 : forall x, int64_casts x = true -> in_int64 x.
+Proof. exact cast_int64_l. Qed.
+Print Assumptions cast_guarded_int64.
+
+Theorem cast_guarded_padding : forall l, padding_casts l = true -> in_uint64 l.
+Proof. exact cast_padding_l. Qed.
+Print Assumptions cast_guarded_padding.
+
+Theorem math_constant_index_in_table : forall p size, (0 < p)%Z -> (0 < size)%Z ->
+  (0 <= math_constant_index p size < size)%Z.
+Proof. exact math_constant_index_l. Qed.
+Print Assumptions math_constant_index_in_table.
+
+Example cast_guards_reject_the_former_witnesses :
+  predicate_casts 99999999999999999999999 5 = false /\ count_casts (10 ^ 30) = false /\ int64_casts (2 ^ 63) = false /\
+  padding_casts (-1) = false /\ math_constant_index 50 50 = 49%Z /\ predicate_casts 3 5 = true /\ count_casts 7 = true.
+Proof. vm_compute. repeat split. Qed.
+Print Assumptions cast_guards_reject_the_former_witnesses.
